@@ -10,8 +10,15 @@ from vlib.tealerio import source_sha, tree_sha
 
 
 def run_k(ctx: Ctx, prop: str, modules: List[Any], explanation: str, functions: List[Any], bounds: Dict[str, Any], assumptions: List[str],
-          timeout_quick: int = 90, timeout_thorough: int = 300, extra_results: Optional[List[Any]] = None, level: str = "other") -> int:
+          timeout_quick: int = 90, timeout_thorough: int = 300, extra_results: Optional[List[Any]] = None, level: str = "other",
+          s_family: Optional[Any] = None) -> int:
     outcome = Outcome()
+    scov: Dict[str, Any] = {}
+    if s_family is not None:
+        from props import sdriver
+
+        check_id, programs = s_family
+        scov = sdriver.run_family(ctx, check_id, programs, outcome)
     allres: List[Any] = []
     counts: Dict[str, int] = {}
     for entry in modules:
@@ -35,8 +42,10 @@ def run_k(ctx: Ctx, prop: str, modules: List[Any], explanation: str, functions: 
         "level": level,
         "coverage": {
             "explanation": explanation,
-            "evaluations": counts.get("obligations", 0),
-            "distinct_nontrivial": counts.get("confirmed", 0),
+            "evaluations": counts.get("obligations", 0) + scov.get("programs", 0),
+            "distinct_nontrivial": counts.get("confirmed", 0) + scov.get("nontrivial_programs", 0),
+            "s_family": {k: v for k, v in scov.items() if k != "samples"},
+            "s_samples": scov.get("samples", [])[:3],
             "obligations": counts.get("obligations", 0),
             "discharged": counts.get("confirmed", 0),
             "k_obligations": counts,
